@@ -386,6 +386,25 @@ def exits_ok(ctx):
                 out.append(Inst("EXITS-OK", "handle_message:stop", ok, hb.site(x["bb"]),
                                 "stop signal raised under the DISCONNECT type guard=%s after %d completed write(s), writes after it: %d" % (in_reg, len(w_before), len(after)),
                                 "only once the user's DISCONNECT has been written, nothing written after it"))
+        if helper == "handle_message":
+            # every way out of the fire-and-forget arm after its write goes through the DISCONNECT test
+            guards = type_guards(ctx, hb)
+            g = guards.get("DISCONNECT")
+            sw_, arms_, oth_, _, _ = match_arms(hb, CTXMSG)
+            reg_ = arm_region(hb, arms_["FireAndForget"]) if "FireAndForget" in arms_ else set()
+            effs_ = [f for f in ctx.effects(hb) if f.kind == "TxWrite" and f.bb in reg_]
+            if g is not None and effs_ and hb.completion_of(effs_[0].inner_bb):
+                rb_ = hb.completion_of(effs_[0].inner_bb)["ready_bb"]
+                reach_ = hb.reachable_from(rb_, avoid=[g[0]])
+                skips = [b_ for b_ in reach_ if b_ in reg_ and any(
+                    st["k"] == "assign" and st["lhs"]["l"] == 0 and not st["lhs"]["p"] and st["rv"]["k"] == "agg" and st["rv"].get("variant") == "Ok" for st in hb.blocks[b_]["stmts"])]
+                # leaving the arm towards the function's common `Ok(..)` tail without the test
+                tail = [b_ for b_ in reach_ if b_ not in reg_ and any(
+                    st["k"] == "assign" and st["lhs"]["l"] == 0 and not st["lhs"]["p"] and st["rv"]["k"] == "agg" and st["rv"].get("variant") == "Ok" for st in hb.blocks[b_]["stmts"])]
+                skips += tail
+                out.append(Inst("EXITS-OK", "handle_message:disconnect-test-after-every-write", not skips, hb.site(g[0]),
+                                "Ok exits of the fire-and-forget arm reachable after the write without passing the DISCONNECT test: %s" % ([hb.site(b_) for b_ in skips] or "none"),
+                                "whenever the user's DISCONNECT has been written, run() is told to stop"))
         # between the stop edge and run's return nothing is written
         reach = run.reachable_from(e["bb"])
         out.append(Inst("EXITS-OK", "run:ok-exit-via-%s" % helper, True, run.site(e["bb"]), "Ok(()) exit of run controlled by the stop signal %s of %s" % (sig, helper), ""))
